@@ -630,6 +630,46 @@ Section Real.
   Proof. exact (same_calls_rejected _ _ _ _ _ _ _ _ real_kernels real_composite real_commutative p). Qed.
 End Real.
 
+(* ---------------------------------------------------------------- the core family: values independent of [other] *)
+Section Core.
+  Context {R : Type}.
+  Variables (rO : R) (radd rmul rsub : R -> R -> R) (ropp : R -> R).
+  Variables other1 other2 : reach -> @tenv R -> list shape -> list (list R).
+
+  Ltac vmc1 h := repeat match goal with |- context [h ?e] =>
+    let t := constr:(h e) in let v := eval vm_compute in t in change t with v end.
+  Ltac vmc_route := repeat match goal with |- context [@route ?A ?l ?e] =>
+    let t := constr:(@route A l e) in let v := eval vm_compute in t in change t with v end.
+
+  (* a typed environment has the constructors its types name *)
+  Ltac ty_inv H env :=
+    repeat (let v := fresh "v" in
+            destruct env as [|v env]; [try discriminate H|];
+            [..|cbn [env_typed] in H; apply andb_true_iff in H; let Hv := fresh "Hv" in destruct H as [Hv H];
+                vm_compute in Hv;
+                destruct v as [?t|?l|[?f|?u|?z|?us|?fs|?ds ?b|?dv]]; try discriminate Hv; clear Hv]);
+    try discriminate H.
+
+  Ltac core_row :=
+    let env := fresh "env" in let Hty := fresh "Hty" in
+    intros env Hty; cbn [m_fn snd] in Hty; ty_inv Hty env;
+    unfold real_val; cbn [m_t]; vmc1 reach_rule; cbv beta iota;
+    match goal with |- context [run_rule ?c ?e] => destruct (run_rule c e) as [?ss|]; [|reflexivity] end;
+    f_equal; unfold real_data; vmc1 (@reach_call); cbv beta iota; vmc_route; cbv beta iota;
+    cbv [core_data seqb String.eqb Ascii.eqb Bool.eqb]; reflexivity.
+
+  Theorem real_core_independent r : In r api_table -> row_core r = true ->
+    forall env, env_typed (snd (m_fn r)) env = true ->
+      real_val rO radd rmul rsub ropp other1 (m_t r) env = real_val rO radd rmul rsub ropp other2 (m_t r) env.
+  Proof.
+    intros Hin Hc. assert (H : In r (filter row_core api_table)) by (apply filter_In; split; assumption).
+    clear Hin Hc. revert H.
+    match goal with |- In r ?l -> _ =>
+      let v := eval vm_compute in l in replace l with v by (vm_cast_no_check (eq_refl v)) end.
+    intro H. repeat (destruct H as [<-|H]; [core_row|]). contradiction H.
+  Qed.
+End Core.
+
 (* static shapes need nothing about the scalars *)
 Theorem real_same_shape {R : Type} (rO rI : R) (radd rmul rsub : R -> R -> R) (ropp : R -> R)
   (fle flt : R -> R -> bool) (ffin : R -> bool) (other : reach -> @tenv R -> list shape -> list (list R)) p out :
